@@ -53,6 +53,8 @@ def gen_observer_set(rng):
     if rng.random() < 0.5:
         rest.append({"t": "residual", "builder": rng.choice(BUILDERS), "rm": rng.random() < 0.8, "rj": rng.random() < 0.8,
                      "pre_removed": rng.randrange(16) if rng.random() < 0.15 else None})
+    if rng.random() < 0.15:
+        rest.append({"t": "edge_updater", "builder": rng.choice(BUILDERS)})  # a user-defined updater that only changes edges
     for s in rest:
         obs.insert(rng.randint(0, len(obs)), s)
     if rng.random() < 0.2 and len(obs) >= 2:
